@@ -57,17 +57,23 @@ ASSIGN_SMALL = [b"\x01", LONG_A]
 
 
 def family(tier, keys):
-    """list of models (dict key -> value). Deterministic."""
+    """list of models (dict key -> value). Deterministic.
+    quick:    all <=2-subsets of the pool x {1 byte, 33 bytes}^size  + the special 3/4-key sets x 4 patterns
+    thorough: all <=2-subsets x {1 byte, 33 bytes, 29 bytes}^size, all 3-subsets of the first 7 keys x 4 patterns,
+              the special sets x 4 patterns"""
     out = []
     n = len(keys)
     if tier == "quick":
-        maxsub, specials, vals = 2, SPECIAL_SETS, ASSIGN_SMALL
+        vals = ASSIGN_SMALL
     else:
-        maxsub, specials, vals = 3, [s for s in SPECIAL_SETS if len(s) > 3], [b"\x01", LONG_A, b"x" * 29]
-    for size in range(0, maxsub + 1):
+        vals = [b"\x01", LONG_A, b"x" * 29]
+    for size in range(0, 3):
         for sub in itertools.combinations(range(n), size):
             for assign in itertools.product(vals, repeat=size):
                 out.append({keys[i]: v for i, v in zip(sub, assign)})
+    specials = list(SPECIAL_SETS)
+    if tier != "quick":
+        specials += [s for s in itertools.combinations(range(min(n, 7)), 3) if s not in specials]
     for sub in specials:
         if max(sub) >= n:
             continue
